@@ -42,7 +42,7 @@ class C12(BtProp):
         n = {"quick": self.quick_n, "thorough": self.thorough_n, "search": 2500}[tier]
         out = []
         for i in range(n):
-            prof = bt_gen.PROFILES[rng.choice(["core", "coreprobe", "par", "dec"])]
+            prof = bt_gen.PROFILES[rng.choice(["core", "coreprobe", "par", "dec", "stock"])]
             spec = bt_gen.gen_tree(rng, prof)
             vis = "".join(rng.choice("oof") for _ in range(rng.randint(0, 3))) + "s"
             vis = "".join(rng.sample(vis, len(vis)))
@@ -90,6 +90,11 @@ class C12(BtProp):
             if any(x.startswith("ERR") for x in b["lines"]):
                 if op[0] in ("setup", "setupt", "mtick") and any(n[0] == "P" and not policy_valid(sh, n[1]) for n in spec_nodes(spec)):
                     break
+                err = next(x for x in b["lines"] if x.startswith("ERR")).split()[-1]
+                if op[0] == "mtick" and err in ("KeyError", "TypeError") and any(
+                        (n[0] == "L" and n[2][0] in ("set", "b2s", "cv", "wv", "cvs")) or
+                        (n[0] == "D" and str(n[2]).startswith("s2b")) for n in spec_nodes(spec)):
+                    break      # documented exceptions of the stock blackboard behaviours (C17), not the tree manager's
                 out.append(viol("raised", "`%s` raised" % b["op"][:30]))
                 break
             if op[0] in ("setup", "setupt", "shutdown"):
@@ -158,6 +163,11 @@ class C12(BtProp):
                         break
                     else:
                         k += 1
+            Bl = next((x for x in b["lines"] if x.startswith("B ")), None)
+            BX = next((x for x in b["lines"] if x.startswith("BX ")), None)
+            if Bl is not None and BX is not None and Bl[2:] != BX[3:]:
+                out.append(viol("snapshot-blackboard", "snapshot records (clients, keys) %s but the behaviours ticked this "
+                                "tick hold %s" % (Bl[2:], BX[3:])))
             count += 1
             K = next((x for x in b["lines"] if x.startswith("K ")), None)
             if K is not None and int(K[2:]) != count:
